@@ -27,7 +27,7 @@ MANIFEST = {
             "coordinates (props/c11.py), the docstrings of compose_flows / compose_svfs / lie_bracket as the "
             "specification of operand order, series and bracket sign. CPU only; float32/float64; shapes <= 12 (exact "
             "facets), <= 40 (2-D) / 20 (3-D) for the smooth-field facets. The smooth-field bounds (bch_smooth growth "
-            "slack, log_exp bound) are calibrated on the current tree with a safety factor >= 3, not derived.",
+            "slack, log_exp bound) are calibrated on the fixed tree with a safety factor >= 3, not derived.",
     "technique": "property-based testing (Hypothesis) with closed-form reference models and metamorphic relations",
 }
 ASSUMPTIONS = [
@@ -39,12 +39,18 @@ ASSUMPTIONS = [
     "scipy logm(expm(Gv) expm(Gu)))",
     "finite-difference brackets use spacing cast to float32 by deepali, hence eps32 terms in the bounds even for float64",
     "bch_smooth (CALIBRATED, not derived): e_k = max|exp(bch_k(u,v)) - exp(v) o exp(u)| in samples for smooth "
-    "band-limited pairs with amplitude a <= 1 sample; checked relation e_{k+1} <= 1.15 e_k + 1e-4 a (largest growth "
-    "e_{k+1}/e_k measured on the fixed tree over the generated domain: see report; slack 0.15 is >= 3x the largest "
-    "measured growth excess) and e_1 <= 0.6 e_0 for clearly non-commuting pairs (measured <= 0.2)",
-    "log_exp (CALIBRATED, not derived): max|logv(expv(v)) - v| <= 0.25 a^2 + 0.03 a samples for a <= 2 samples, "
-    "grids >= 12 per axis, wave numbers <= 2, default logv parameters with consistent spacing; >= 3x above the "
-    "largest value measured on the fixed tree; independence of align_corners is checked with a derived rounding bound",
+    "band-limited pairs with amplitude a <= 1 sample; asserted: e_{k+1} - e_k <= 0.25 (e_0 + 0.01 a), k = 0..4; "
+    "largest value of (e_{k+1} - e_k)/(e_0 + 0.01 a) measured on the fixed tree over 16906 distinct generated cases "
+    "is 0.066 (safety 3.8; later terms are legitimately up to ~|Jac|/6 ~ 0.1 of the first correction). NOT asserted "
+    "because not robust on the correct tree: pairwise ratio e_{k+1}/e_k (measured up to 1.48 through cancellation), "
+    "e_1 <= 0.6 e_0 (measured e_1/e_0 up to 1.03 for pairs with e_0 >= 0.01 a on coarse grids, 1.34 for nearly "
+    "commuting ones), and a smaller floor 1e-3 a (heavy tail for nearly commuting pairs)",
+    "log_exp (CALIBRATED, not derived): max|logv(expv(v)) - v| <= kappa (0.5 a^2 + 0.25 a) samples, "
+    "kappa = D (pi w_max/(n_min-1))^2, for a <= 2 samples, grids >= 12 per axis, wave numbers <= 2, default logv "
+    "parameters with consistent spacing; largest measured error/bound on the fixed tree over 1487 distinct generated "
+    "cases is 0.31 (safety 3.2); a halving relation err(a/2) <= c err(a) is not asserted (measured ratios 0.1..0.57 "
+    "leave no robust constant below 1 with a safety margin); independence of align_corners is checked with a derived "
+    "rounding bound",
     "logv / compose_svfs are called with `spacing` consistent with the convention (2/(n-1) resp. 2/n): with "
     "spacing=None deepali always uses 2/(n-1), which is documented behaviour of flow_derivatives",
 ]
@@ -328,7 +334,7 @@ def run_convention(case):
         # squaring doubles absolute errors, which were introduced at 2^-(k-j) scale: ~ steps * base, amplified by
         # prod_j (1 + L_j/2) <= exp(L_final) with L_final <= e^L - 1 the Lipschitz constant of the exponential
         ampl = math.exp(math.expm1(min(L, 2.0)))
-        steps = case.get("steps", 5)
+        steps = case.get("steps", max(case.get("exp_steps") or 5, 5))  # logv: expv default and exp_steps
         bound = base * (steps + 1) * ampl
         if op == "logv":
             # per iteration: one exponential, one composition, BCH with Jacobians whose spacing is cast to
@@ -521,17 +527,18 @@ def run_bracket(case):
     analytic = case["mode"] in (None, "forward_central_backward") and not case["sigma"] and not case["use_default_spacing"]
     nz = False
     if analytic:
+        models, us, vs = [], [], []
         for b in range(N):
-            Gu = hom_gen(raw_gen(case["u"], D, 1.0 / (b + 1)))
-            Gv = hom_gen(raw_gen(case["v"], D, 1.0 / (b + 1)))
-            Fu = AField(Gu, x, 0.0)
-            Fv = AField(Gv, x, 0.0)
+            Fu = AField(hom_gen(raw_gen(case["u"], D, 1.0 / (b + 1))), x, 0.0)
+            Fv = AField(hom_gen(raw_gen(case["v"], D, 1.0 / (b + 1))), x, 0.0)
             Fu.err, Fv.err = eps * Fu.fmax, eps * Fv.fmax
-            ut = torch.tensor(Fu.vals[None], dtype=dt)
-            vt = torch.tensor(Fv.vals[None], dtype=dt)
-            m = bracket_model(Fv, Fu, x, eps, smin)
+            us.append(Fu.vals)
+            vs.append(Fv.vals)
+            models.append(bracket_model(Fv, Fu, x, eps, smin))
+        got = U.lie_bracket(torch.tensor(np.stack(vs), dtype=dt), torch.tensor(np.stack(us), dtype=dt), **kw)
+        for b, m in enumerate(models):
             nz = nz or float(np.abs(m.vals).max()) > 1e-2
-            worst = max(worst, check_close(U.lie_bracket(vt, ut, **kw)[0], m.vals, 8 * m.err + 1e-300, "bracket_analytic",
+            worst = max(worst, check_close(got[b], m.vals, 8 * m.err + 1e-300, "bracket_analytic",
                                            "lie_bracket(v, u) != Jac(v) u - Jac(u) v = (BA-AB)x + (Ba-Ab) on affine fields"))
     labels = [f"D={D}", case["dtype"], f"N={N}", f"mode={case['mode']}", f"sigma={case['sigma']}", case["content"],
               "spacing=default" if case["use_default_spacing"] else f"spacing={case['spacing_kind']}/{case['spacing_form']}",
@@ -643,14 +650,6 @@ def run_bch_affine(case):
             vals, err = models[b][0][3]
             worst = max(worst, check_close(w3[b], vals, 8 * err + 1e-300, "bch_default_terms",
                                            "compose_svfs default must be the 3-term formula"))
-    # documented argument errors
-    for bad, exc in ((-1, ValueError), (6, NotImplementedError)):
-        try:
-            U.compose_svfs(u, v, bch_terms=bad, **kw)
-        except exc:
-            pass
-        else:
-            raise Violation("bch_terms_range_not_rejected", f"compose_svfs(bch_terms={bad}) did not raise {exc.__name__}")
     labels = [f"D={D}", case["dtype"], f"N={N}", f"pair={case['pair']}", f"mode={case['mode']}",
               f"spacing={case['spacing_kind']}/{case['spacing_form']}"]
     return {"ratio": worst, "nontrivial": nz and len(set(shape)) > 1, "labels": labels}
@@ -660,9 +659,8 @@ def run_bch_affine(case):
 # facet 5: BCH truncation error on smooth non-commuting pairs does not grow with the order
 
 
-GROWTH = 1.15  # e_{k+1} <= GROWTH * e_k + FLOOR * a   (calibrated, see ASSUMPTIONS)
-FLOOR = 1e-4
-FIRST = 0.6  # e_1 <= FIRST * e_0 for clearly non-commuting pairs
+GROWTH = 0.25  # e_{k+1} <= e_k + GROWTH * (e_0 + FLOOR * a)   (calibrated, see ASSUMPTIONS)
+FLOOR = 1e-2
 
 
 @st.composite
@@ -681,7 +679,7 @@ def bch_smooth_cases(draw):
 
 
 def bch_errors(case):
-    """e_k (samples), k = 0..5, and the size of the first-order correction [v,u]/2 (samples)."""
+    """e_k = max |exp(bch_k(u, v)) - exp(v) o exp(u)| in samples, k = 0..5."""
     from deepali.core import functional as U
 
     D, shape, ac = case["D"], case["shape"], case["ac"]
@@ -695,7 +693,7 @@ def bch_errors(case):
     # exp(v) o exp(u): u applied first  (compose_flows(a, b) = a(x) + b(x + a(x)))
     ref = U.compose_flows(U.expv(u, steps=steps, align_corners=ac), U.expv(v, steps=steps, align_corners=ac), align_corners=ac)
     kw = {}
-    if case["spacing_given"] or not ac:
+    if case["spacing_given"] or not ac:  # spacing=None means 2/(n-1), i.e. the align_corners=True convention
         kw["spacing"] = [float(s) for s in unit_of(shape, ac)]
     errs = []
     for k in range(6):
@@ -706,30 +704,43 @@ def bch_errors(case):
 
 
 def run_bch_smooth(case):
+    """'Does not grow' is stated as  e_{k+1} - e_k <= GROWTH * (e_0 + FLOOR a)  for k = 0..4.
+
+    Scale: e_0 is the error of the plain sum, i.e. the size of the correction [v,u]/2 the series has to make (plus the
+    discretisation error common to all k); FLOOR*a = 0.01 a is the threshold below which a pair counts as nearly
+    commuting (there e_0 is only discretisation error and may even be lowered by cancellation).  Why a slack is
+    needed at all: a single term can increase the error before the next one compensates; relative to the first
+    correction the later terms have size <= |Jac|/6 (k = 1, 2) and |Jac|^2/24 (k = 3, 4) with
+    |Jac| <~ a pi w / (n - 1) <= 0.6 on the generated domain, i.e. growth up to ~0.1 is legitimate.
+    NOT asserted, because not robust on the correct tree: the pairwise ratio e_{k+1}/e_k (cancellation between
+    truncation and discretisation error makes single e_k small: measured up to 1.48), 'e_1 <= 0.6 e_0' (measured
+    e_1/e_0 up to 1.34 for nearly commuting pairs and 1.03 for pairs with e_0 >= 0.01 a on coarse grids), and a floor
+    of 1e-3 a (heavy tail: 0.105 on 5.7k cases, 0.204 on 16.9k).
+    Calibration (fixed tree, 16906 distinct generated cases, 20 seeds): largest (e_{k+1} - e_k) / (e_0 + 0.01 a) =
+    0.066 (per k: 0.051, 0.066, 0.033, 0.007, 0.009; unchanged between 5.7k and 16.9k cases); GROWTH = 0.25 keeps a
+    factor 3.8.  A sign error of the first-order term gives e_1 ~ 2 e_0, a growth of ~1.0 on this scale."""
     errs = bch_errors(case)
     a = case["amp"]
+    scale = errs[0] + FLOOR * a
     worst = 0.0
     for k in range(5):
-        lim = GROWTH * errs[k] + FLOOR * a
-        if not errs[k + 1] <= lim:
-            raise Violation("bch_error_grows", f"e_{k + 1} = {errs[k + 1]:.4g} > {GROWTH} e_{k} + {FLOOR}a = {lim:.4g}; all e_k = "
-                            + ", ".join(f"{e:.3g}" for e in errs))
-        worst = max(worst, errs[k + 1] / lim)
+        g = (errs[k + 1] - errs[k]) / scale
+        if not g <= GROWTH:
+            raise Violation("bch_error_grows", f"e_{k + 1} - e_{k} = {errs[k + 1] - errs[k]:.4g} > {GROWTH} (e_0 + {FLOOR} a) = "
+                            f"{GROWTH * scale:.4g}; e_k = " + ", ".join(f"{e:.3g}" for e in errs) + f" (a={a})")
+        worst = max(worst, g / GROWTH)
     noncomm = errs[0] >= 0.01 * a
-    if noncomm:
-        if not errs[1] <= FIRST * errs[0]:
-            raise Violation("bch_first_term_no_gain", f"e_1 = {errs[1]:.4g} > {FIRST} e_0 = {FIRST * errs[0]:.4g} (a={a})")
-        worst = max(worst, errs[1] / (FIRST * errs[0]))
     return {"ratio": worst, "nontrivial": noncomm and a >= 0.3,
-            "labels": [f"D={case['D']}", f"ac={case['ac']}", case["dtype"], "noncommuting" if noncomm else "near_commuting"]}
+            "labels": [f"D={case['D']}", f"ac={case['ac']}", case["dtype"], "noncommuting" if noncomm else "near_commuting",
+                       "gain>=2" if errs[5] <= 0.5 * errs[0] else "gain<2"]}
 
 
 # ---------------------------------------------------------------------------------------
 # facet 6: log(exp(v)) = v within a stated bound, independent of the convention
 
 
-LOG_C2 = 0.25
-LOG_C1 = 0.03
+LOG_C2 = 0.5  # |logv(expv(v)) - v| <= kappa (LOG_C2 a^2 + LOG_C1 a) samples, kappa = D (pi w_max / (n_min - 1))^2
+LOG_C1 = 0.25
 
 
 @st.composite
@@ -754,7 +765,8 @@ def run_log_exp(case):
     a = case["amp"]
     out = {}
     worst = 0.0
-    bound = LOG_C2 * a * a + LOG_C1 * a
+    kappa = D * (math.pi * max(case["waves"]) / (min(shape) - 1)) ** 2  # curvature of the field in index units / a
+    bound = kappa * (LOG_C2 * a * a + LOG_C1 * a)
     for ac in (True, False):
         v = torch.tensor(to_norm(fv, shape, ac), dtype=dt)
         e = U.expv(v, align_corners=ac)
@@ -763,7 +775,7 @@ def run_log_exp(case):
             raise Violation("log_exp_shape", f"logv result shape {tuple(r.shape)} != {tuple(v.shape)}")
         out[ac] = to_vox(r, shape, ac)
         worst = max(worst, check_close(out[ac], fv, bound, "log_exp_bound",
-                                       f"|logv(expv(v)) - v| (samples) vs {LOG_C2} a^2 + {LOG_C1} a, a={a}, align_corners={ac}"))
+                                       f"|logv(expv(v)) - v| (samples) vs kappa ({LOG_C2} a^2 + {LOG_C1} a), a={a}, kappa={kappa:.4g}, align_corners={ac}"))
     n = max(shape)
     L = lipschitz(fv)
     base = 64 * eps * (n * max(L, 0.05) + max(a, 1.0))
@@ -782,27 +794,27 @@ FACETS = [
                "(second field optionally an arbitrary affine field), N in 1..3, both conventions, f32/f64, hash-noise for the "
                "zero-field identities; non-trivial = off-diagonal entries, linear parts do not commute (operand order "
                "observable), non-cubic shape",
-          quick=500, thorough=16000, shards=16, quick_shards=2),
+          quick=800, thorough=16000, shards=16, quick_shards=2),
     Facet("convention_independence", run_convention, strategy=convention_cases,
           rule="voxel-space smooth (+hash-noise) fields of amplitude 0.1..3 samples, op in {compose_flows, expv, logv}, "
                "N in 1..2, f32/f64; non-trivial = amplitude >= 0.3 samples and non-cubic shape",
-          quick=260, thorough=6000, shards=16, quick_shards=2),
+          quick=400, thorough=6000, shards=16, quick_shards=2),
     Facet("bracket_algebra", run_bracket, strategy=bracket_cases,
           rule="noise / smooth+noise / affine fields on lattices with cube or generated (an)isotropic spacing, all finite "
                "difference modes, optional Gaussian pre-smoothing, spacing as list/scalar/(N,D) tensor/default; analytic value "
                "for forward_central_backward without smoothing; non-trivial = non-cubic shape and non-zero analytic bracket",
-          quick=300, thorough=8000, shards=8, quick_shards=2),
+          quick=400, thorough=8000, shards=16, quick_shards=3),
     Facet("bch_exact_affine", run_bch_affine, strategy=bch_affine_cases,
           rule="free affine generator pairs |entries| <= 1 (general; commuting: scalar multiple, translations, diagonal, "
                "generic field and its multiple), every bch_terms 0..5 per case; non-trivial = bracket not ~0 (general) "
                "/ both fields non-zero (commuting), non-cubic shape",
-          quick=300, thorough=8000, shards=8, quick_shards=2),
+          quick=400, thorough=8000, shards=16, quick_shards=3),
     Facet("bch_smooth", run_bch_smooth, strategy=bch_smooth_cases,
           rule="pairs of band-limited fields (wave numbers 1..2) vanishing at the boundary, amplitude 0.1..1 samples, "
                "amplitude ratio in +-{0.5, 0.8, 1}; non-trivial = e_0 >= 0.01 a and a >= 0.3",
-          quick=60, thorough=1500, shards=16, quick_shards=2),
+          quick=160, thorough=3000, shards=16, quick_shards=2),
     Facet("log_exp", run_log_exp, strategy=log_exp_cases,
           rule="band-limited fields vanishing at the boundary, amplitude 0.05..2 samples, grids >= 12 per axis, both "
                "conventions per case, N in 1..2; non-trivial = a >= 0.5 and non-cubic shape",
-          quick=60, thorough=1500, shards=16, quick_shards=2),
+          quick=100, thorough=2000, shards=16, quick_shards=2),
 ]
